@@ -56,7 +56,7 @@ def keyfn(row):
 def run(ctx):
     sd = su.spec_dir()
     thorough = ctx.tier == "thorough"
-    exe = ctx.build("d_sidemeta")
+    exe = su.build(ctx)
     # ---- design level ------------------------------------------------------------------
     mcs = ["MC_SideMeta_b1.cfg", "MC_SideMeta_b2.cfg", "MC_SideMeta_b4.cfg"]
     if thorough:
@@ -71,11 +71,11 @@ def run(ctx):
     # ---- conformance -------------------------------------------------------------------
     runs = [("debug", exe)]
     if thorough:
-        runs.append(("release", ctx.build("d_sidemeta", release=True)))
+        runs.append(("release", su.build(ctx, release=True)))
     total_ops = 0
     for name, binp in runs:
         out = os.path.join(ctx.work, "c20_%s.ndjson" % name)
-        summary = su.run_driver(ctx, binp, "c20", out)
+        summary = su.run_driver(ctx, binp, "c20", out, release=(name == "release"))
         total, n = su.count_rows(out, ["Op", "Raw", "Map", "Crash"])
         total_ops += n["Op"]
         ctx.cov["driver_%s" % name] = {"summary": summary, "rows": total, "calls": n["Op"],
